@@ -8,7 +8,7 @@
 (* in   = [intr |-> << [cyc, stb, we, lock, cti, bte, adr, dat_w, sel] >>,                 *)
 (*         tgt  |-> [ack, err, rty, stall, dat_r]]        (absent optional signals are 0)  *)
 (* One step = one rising clock edge.                                                       *)
-EXTENDS Util
+EXTENDS Util, WbArbiterAbsOps
 
 ArbInit(cfg) == [grant |-> 1]
 
@@ -30,6 +30,11 @@ NextGrant(cfg, st, in) ==
   ELSE ((g - 1 + MinOf(After(cfg, g, in))) % cfg.n) + 1
 
 ArbStep(cfg, st, in) == [grant |-> NextGrant(cfg, st, in)]
+\* the same step seen through the abstract round-robin relation that TLAPS proves starvation-free for
+\* EVERY number of initiators (WbArbiterAbs.tla, initiators numbered from 0 there)
+AbsGrantOK(cfg, st, in) ==
+  GrantRel(cfg.n, st.grant - 1, {k - 1 : k \in {j \in 1..cfg.n : in.intr[j].cyc = 1}},
+           Busy(cfg, st, in), NextGrant(cfg, st, in) - 1)
 
 \* ---- outputs (Mealy) ----
 ArbBus(cfg, st, in) ==
@@ -71,5 +76,6 @@ ArbCheck(cfg, st, in, o) ==
   ELSE IF \E k \in 1..cfg.n : cfg.intr[k].feat.stall = 1
                               /\ o.intr[k].stall # ArbIntr(cfg, st, in, k).stall THEN "intr.stall"
   ELSE IF \E k \in 1..cfg.n : o.intr[k].dat_r # in.tgt.dat_r THEN "intr.dat_r"
+  ELSE IF ~AbsGrantOK(cfg, st, in) THEN "abstract round-robin step (WbArbiterAbs)"
   ELSE "none"
 ====
